@@ -1,6 +1,6 @@
 SPECIFICATION Spec
 CONSTANTS
-  HP = {"app_1.ex:1965", "app-1.ex:1965", "app_1.ex:1966"}
+  HP = {"app_1.ex:1965", "app-1.ex:1965", "app_1.ex:1966", "app_1.ex.:1965"}
   Certs = {"c1", "c2"}
   MaxOps = 3
   DevUnreadableSkipsCheck = FALSE
